@@ -39,9 +39,9 @@ ASSUMPTIONS = ["exact regime: dyadic corners and cells, every binary64 operation
                "cases whose largest spacing deviation is within a factor 3.3 of np.allclose's threshold are not compared "
                "(incidental threshold)"]
 UNPROVED = ["labels of a vector field WITHOUT labels (vdims=[]) are not preserved: the importer assigns the defaults "
-            "(xa_roundtrip_unlabelled proves this of the model; finding D24)",
+            "(xa_roundtrip_unlabelled proves this of the model; finding D81)",
             "'unevenly spaced coordinates are rejected' is FALSE of the code at spacings below ~1e-8 (np.allclose's absolute "
-            "tolerance): spacing_blind_below_atol proves the model accepts ANY coordinates there (finding D25)",
+            "tolerance): spacing_blind_below_atol proves the model accepts ANY coordinates there (finding D82)",
             "unit, validity mask, bc, subregions and vdim_mapping are not restored by from_xarray (not in the property's list; "
             "observation)"]
 BUDGET = {"quick": 85, "thorough": 800}
@@ -728,18 +728,18 @@ def nontrivial(case, obs):
 
 
 def known(case, text):
-    # D24: labels survive only for labelled vector fields and unlabelled scalar fields: a vector field without labels
+    # D81: labels survive only for labelled vector fields and unlabelled scalar fields: a vector field without labels
     # (vdims=[]) comes back with the default labels, a scalar field with a label comes back without
     if case["kind"] == "rt" and text.startswith("labels changed:"):
         fs = case["fs"]
         if (fs["nvdim"] > 1 and fs["labels"] == []) or (fs["nvdim"] == 1 and fs["labels"]):
-            return "D24"
-    # D25: coordinates with relative unevenness > 1e-3 are accepted when every spacing deviates from the mean by less than
+            return "D81"
+    # D82: coordinates with relative unevenness > 1e-3 are accepted when every spacing deviates from the mean by less than
     # np.allclose's threshold, which for spacings below ~1e-5 is its ABSOLUTE term 1e-8 (ratio < 1 = the test passes)
     if case["kind"] == "uneven" and text.startswith("unevenly spaced coordinates accepted"):
         m = re.search(r"deviation/np\.allclose threshold ([0-9.e+-]+)\)", text)
         if m and float(m.group(1)) < 1:
-            return "D25"
+            return "D82"
     return None
 
 
